@@ -278,7 +278,9 @@ macro_rules! sinks {
 
 pub fn run_case(id: &str, cfg: &Value) -> Value {
     let plen = cfg["plen"].as_u64().unwrap() as usize;
-    let payload: Vec<u8> = (0..plen).map(|i| ((i * 7 + 3) % 251) as u8).collect();
+    // 13 bytes: a first limb that fills the upper half of a 64 bit register with ones, then limbs of all ones (every further add carries
+    // around the register), odd tail; everything else: distinguishable bytes
+    let payload: Vec<u8> = if plen == 13 { vec![0, 0, 0, 0, 255, 255, 255, 255, 255, 255, 255, 255, 255] } else { (0..plen).map(|i| ((i * 7 + 3) % 251) as u8).collect() };
     let r = catch_unwind(AssertUnwindSafe(|| {
         let size = match build(cfg) {
             Final::Udp(b) => b.size(plen),
